@@ -613,4 +613,319 @@ theorem nmLoop_spec (pcm : Int) (pol : Policy) :
               exact (RangeOK_markRange t n m nm.1 nm.2 hm j1 j2).2
             · simp only [List.length_cons, List.take_succ_cons]
               exact List.Forall₂.cons hhon i4
+
+/-! ### aggregate bitmap of a route -/
+
+theorem getElem?_bitmapSum (a b : List Cell) (i : Nat) :
+    (bitmapSum a b)[i]? = some Cell.free ↔ a[i]? = some Cell.free ∧ b[i]? = some Cell.free := by
+  unfold bitmapSum
+  rw [List.getElem?_zipWith]
+  cases ha : a[i]? with
+  | none => simp
+  | some x =>
+    cases hb : b[i]? with
+    | none => simp
+    | some y =>
+      simp only [Option.some.injEq]
+      by_cases h : x = Cell.free ∧ y = Cell.free
+      · simp [h]
+      · rw [if_neg h]
+        constructor
+        · intro hh; cases hh
+        · intro hh; exact absurd hh h
+
+theorem aggCells_spec (s : List Oms) (L : Nat) (hL : ∀ o ∈ s, o.bm.cells.length = L) :
+    ∀ (os : List Nat) (acc r : List Cell), acc.length = L → aggCells s os acc = .ok r →
+      r.length = L ∧ (∀ k ∈ os, ∃ o, s[k]? = some o) ∧
+      ∀ i : Nat, r[i]? = some Cell.free ↔
+        (acc[i]? = some Cell.free ∧ ∀ k ∈ os, ∀ o, s[k]? = some o → o.bm.cells[i]? = some Cell.free) := by
+  intro os
+  induction os with
+  | nil =>
+    intro acc r hacc h
+    have : r = acc := by simpa [aggCells, pure, Except.pure] using h.symm
+    subst this
+    simp [hacc]
+  | cons o os ih =>
+    intro acc r hacc h
+    unfold aggCells at h
+    cases ho : s[o]? with
+    | none => rw [ho] at h; cases h
+    | some x =>
+      rw [ho] at h
+      simp only at h
+      have hx : x.bm.cells.length = L := hL x (List.mem_of_getElem? ho)
+      have hlen : (bitmapSum x.bm.cells acc).length = L := by
+        unfold bitmapSum; rw [List.length_zipWith, hx, hacc]; omega
+      obtain ⟨i1, i2, i3⟩ := ih _ r hlen h
+      refine ⟨i1, ?_, ?_⟩
+      · intro k hk
+        rcases List.mem_cons.1 hk with rfl | hk
+        · exact ⟨x, ho⟩
+        · exact i2 k hk
+      · intro i
+        rw [i3 i, getElem?_bitmapSum]
+        constructor
+        · rintro ⟨⟨h1, h2⟩, h3⟩
+          refine ⟨h2, ?_⟩
+          intro k hk y hy
+          rcases List.mem_cons.1 hk with rfl | hk
+          · rw [ho] at hy; cases hy; exact h1
+          · exact h3 k hk y hy
+        · rintro ⟨h1, h2⟩
+          exact ⟨⟨h2 o List.mem_cons_self x ho, h1⟩, fun k hk y hy => h2 k (List.mem_cons_of_mem _ hk) y hy⟩
+
+theorem frequencyToN_nToFrequency (n : Int) : frequencyToN (nToFrequency n) = n := by
+  unfold frequencyToN nToFrequency truncDiv anchorHz defaultGrid
+  rw [show (193100000000000 + n * 6250000000 - 193100000000000 : Int) = n * 6250000000 by omega]
+  exact Int.mul_tdiv_cancel n (by decide)
+
+/-- guard-band limits of the test bitmap built by `aggregate_oms_bitmap`: recomputed from the first/last slot index -/
+def Bitmap.aggIdxMin (b : Bitmap) : Int := frequencyToN (nToFrequency b.nMin + b.guardband)
+def Bitmap.aggIdxMax (b : Bitmap) : Int := frequencyToN (nToFrequency b.nMax - b.guardband)
+
+/-- the OMS list as `build_oms_list` leaves it: every map well formed, all maps over the same index range with the same
+    guard band, and the limits recomputed by the aggregate are not looser than the recorded ones -/
+structure StateWF (s : List Oms) : Prop where
+  wf : ∀ o ∈ s, o.bm.WF
+  same : ∀ o ∈ s, ∀ o' ∈ s, o.bm.nMin = o'.bm.nMin ∧ o.bm.nMax = o'.bm.nMax ∧ o.bm.guardband = o'.bm.guardband
+  guard : ∀ o ∈ s, o.bm.idxMin ≤ o.bm.aggIdxMin ∧ o.bm.aggIdxMax ≤ o.bm.idxMax
+
+theorem aggregate_spec (s : List Oms) (hs : StateWF s) (path : List Nat) (t : Bitmap) (h : aggregate path s = .ok t) :
+    path ≠ [] ∧ t.WF ∧ (∀ k ∈ path, ∃ o, s[k]? = some o) ∧
+    (∀ k ∈ path, ∀ o, s[k]? = some o → t.nMin = o.bm.nMin ∧ t.nMax = o.bm.nMax ∧ t.idxMin = o.bm.aggIdxMin ∧
+      t.idxMax = o.bm.aggIdxMax) ∧
+    (∀ x, t.cellAt x = some Cell.free ↔ ∀ k ∈ path, ∀ o, s[k]? = some o → o.bm.cellAt x = some Cell.free) := by
+  unfold aggregate at h
+  cases path with
+  | nil => cases h
+  | cons p0 rest =>
+    simp only at h
+    cases h0 : s[p0]? with
+    | none => rw [h0] at h; cases h
+    | some o0 =>
+      rw [h0] at h
+      simp only [bind, Except.bind] at h
+      have hm0 : o0 ∈ s := List.mem_of_getElem? h0
+      have hL : ∀ o ∈ s, o.bm.cells.length = o0.bm.cells.length := by
+        intro o ho
+        obtain ⟨e1, e2, _⟩ := hs.same o ho o0 hm0
+        rw [Bitmap.length_cells _ (hs.wf o ho), Bitmap.length_cells _ (hs.wf o0 hm0), e1, e2]
+      cases hc : aggCells s rest o0.bm.cells with
+      | error e => rw [hc] at h; cases h
+      | ok cells =>
+        rw [hc] at h
+        simp only at h
+        obtain ⟨c1, c2, c3⟩ := aggCells_spec s _ hL rest _ cells rfl hc
+        unfold Bitmap.create at h
+        have hg : ¬ defaultGrid = 0 := by decide
+        rw [if_neg hg] at h
+        simp only [frequencyToN_nToFrequency] at h
+        have hlen : cells.length = (intRange o0.bm.nMin (o0.bm.nMax + 1)).length := by
+          rw [c1, Bitmap.length_cells _ (hs.wf o0 hm0), length_intRange]
+        rw [if_pos hlen] at h
+        have ht : t = { nMin := o0.bm.nMin, nMax := o0.bm.nMax,
+                        idxMin := frequencyToN (nToFrequency o0.bm.nMin + o0.bm.guardband),
+                        idxMax := frequencyToN (nToFrequency o0.bm.nMax - o0.bm.guardband),
+                        freqIndex := intRange o0.bm.nMin (o0.bm.nMax + 1), cells := cells,
+                        guardband := o0.bm.guardband } := by
+          simpa [pure, Except.pure] using h.symm
+        have hvalid : ∀ k ∈ p0 :: rest, ∃ o, s[k]? = some o := by
+          intro k hk
+          rcases List.mem_cons.1 hk with rfl | hk
+          · exact ⟨o0, h0⟩
+          · exact c2 k hk
+        refine ⟨by simp, ?_, hvalid, ?_, ?_⟩
+        · rw [ht]; exact ⟨rfl, hlen⟩
+        · intro k hk o ho
+          obtain ⟨e1, e2, e3⟩ := hs.same o (List.mem_of_getElem? ho) o0 hm0
+          rw [ht]
+          simp only [Bitmap.aggIdxMin, Bitmap.aggIdxMax, e1, e2, e3, and_self]
+        · intro x
+          have hcell : ∀ o ∈ s, o.bm.cellAt x = if o0.bm.nMin ≤ x then o.bm.cells[(x - o0.bm.nMin).toNat]? else none := by
+            intro o ho
+            unfold Bitmap.cellAt
+            rw [(hs.same o ho o0 hm0).1]
+          have htc : t.cellAt x = if o0.bm.nMin ≤ x then cells[(x - o0.bm.nMin).toNat]? else none := by
+            rw [ht]; rfl
+          rw [htc]
+          by_cases hx : o0.bm.nMin ≤ x
+          · simp only [hx, if_true]
+            rw [c3]
+            constructor
+            · rintro ⟨a1, a2⟩ k hk o ho
+              rw [hcell o (List.mem_of_getElem? ho)]
+              simp only [hx, if_true]
+              rcases List.mem_cons.1 hk with rfl | hk
+              · rw [h0] at ho; cases ho; exact a1
+              · exact a2 k hk o ho
+            · intro a
+              constructor
+              · have := a p0 List.mem_cons_self o0 h0
+                rw [hcell o0 hm0] at this
+                simpa [hx] using this
+              · intro k hk o ho
+                have := a k (List.mem_cons_of_mem _ hk) o ho
+                rw [hcell o (List.mem_of_getElem? ho)] at this
+                simpa [hx] using this
+          · simp only [hx, if_false]
+            constructor
+            · intro a; cases a
+            · intro a
+              have := a p0 List.mem_cons_self o0 h0
+              rw [hcell o0 hm0] at this
+              simp [hx] at this
+
+/-! ### applying the selected slots on the OMS of the route -/
+
+/-- all `[N−M, N+M−1]` of a list marked -/
+def Bitmap.markAll (b : Bitmap) (sel : List (Int × Int)) : Bitmap :=
+  sel.foldl (fun b nm => b.markRange (nm.1 - nm.2) (nm.1 + nm.2 - 1)) b
+
+/-- slot `x` belongs to one of the assignments -/
+def covers (sel : List (Int × Int)) (x : Int) : Bool := sel.any (fun nm => decide (nm.1 - nm.2 ≤ x ∧ x ≤ nm.1 + nm.2 - 1))
+
+theorem covers_iff (sel : List (Int × Int)) (x : Int) :
+    covers sel x = true ↔ ∃ nm ∈ sel, nm.1 - nm.2 ≤ x ∧ x ≤ nm.1 + nm.2 - 1 := by
+  simp [covers]
+
+theorem Bitmap.cellAt_markAll (sel : List (Int × Int)) : ∀ (b : Bitmap) (x : Int),
+    (b.markAll sel).cellAt x = (b.cellAt x).map (fun c => if covers sel x then Cell.occupied else c) := by
+  induction sel with
+  | nil => intro b x; simp [Bitmap.markAll, covers]
+  | cons nm sel ih =>
+    intro b x
+    have : b.markAll (nm :: sel) = (b.markRange (nm.1 - nm.2) (nm.1 + nm.2 - 1)).markAll sel := rfl
+    rw [this, ih, Bitmap.cellAt_markRange]
+    cases b.cellAt x with
+    | none => rfl
+    | some c =>
+      have hcons : covers (nm :: sel) x = (decide (nm.1 - nm.2 ≤ x ∧ x ≤ nm.1 + nm.2 - 1) || covers sel x) := rfl
+      simp only [Option.map_some, hcons]
+      by_cases h1 : nm.1 - nm.2 ≤ x ∧ x ≤ nm.1 + nm.2 - 1
+      · simp [h1]
+      · simp [h1]
+
+theorem Bitmap.markAll_fields (sel : List (Int × Int)) : ∀ (b : Bitmap),
+    (b.markAll sel).nMin = b.nMin ∧ (b.markAll sel).nMax = b.nMax ∧ (b.markAll sel).idxMin = b.idxMin ∧
+    (b.markAll sel).idxMax = b.idxMax ∧ (b.markAll sel).guardband = b.guardband ∧
+    (b.markAll sel).freqIndex = b.freqIndex ∧ (b.markAll sel).cells.length = b.cells.length := by
+  induction sel with
+  | nil => intro b; simp [Bitmap.markAll]
+  | cons nm sel ih =>
+    intro b
+    have : b.markAll (nm :: sel) = (b.markRange (nm.1 - nm.2) (nm.1 + nm.2 - 1)).markAll sel := rfl
+    rw [this]
+    obtain ⟨a1, a2, a3, a4, a5, a6, a7⟩ := ih (b.markRange (nm.1 - nm.2) (nm.1 + nm.2 - 1))
+    refine ⟨a1, a2, a3, a4, a5, a6, ?_⟩
+    rw [a7]; simp [Bitmap.markRange]
+
+theorem Bitmap.WF_markAll (sel : List (Int × Int)) (b : Bitmap) (h : b.WF) : (b.markAll sel).WF := by
+  obtain ⟨_, _, _, _, _, a6, a7⟩ := Bitmap.markAll_fields sel b
+  unfold Bitmap.WF at *
+  obtain ⟨a1, a2, _, _, _, _, _⟩ := Bitmap.markAll_fields sel b
+  rw [a6, a7, a1, a2]; exact h
+
+theorem foldlM_assign (sel : List (Int × Int)) : ∀ (b b' : Bitmap), b.WF →
+    sel.foldlM (fun b nm => assignSpectrum b nm.1 nm.2) b = .ok b' →
+    b' = b.markAll sel ∧ ∀ nm ∈ sel, 0 < nm.2 ∧ b.idxMin ≤ nm.1 ∧ nm.1 ≤ b.idxMax ∧ b.nMin < nm.1 - nm.2 ∧
+      nm.1 + nm.2 - 1 ≤ b.nMax := by
+  induction sel with
+  | nil =>
+    intro b b' _ h
+    have : b' = b := by simpa [List.foldlM_nil, pure, Except.pure] using h.symm
+    subst this
+    simp [Bitmap.markAll]
+  | cons nm sel ih =>
+    intro b b' hwf h
+    rw [List.foldlM_cons] at h
+    simp only [bind, Except.bind] at h
+    cases ha : assignSpectrum b nm.1 nm.2 with
+    | error e => rw [ha] at h; cases h
+    | ok b1 =>
+      rw [ha] at h
+      simp only at h
+      obtain ⟨hm, a1, a2, a3, a4, hb1⟩ := assignSpectrum_ok b b1 _ _ hwf ha
+      have hwf1 : b1.WF := by rw [hb1]; exact Bitmap.WF_markRange _ _ _ hwf
+      obtain ⟨i1, i2⟩ := ih b1 b' hwf1 h
+      refine ⟨?_, ?_⟩
+      · rw [i1, hb1]; rfl
+      · intro x hx
+        rcases List.mem_cons.1 hx with rfl | hx
+        · exact ⟨hm, a1, a2, a3, a4⟩
+        · have := i2 x hx
+          rw [hb1] at this
+          exact this
+
+/-- the state of an OMS of the route after an accepted request -/
+def Oms.served (o : Oms) (sel : List (Int × Int)) (id : String) (nb : Int) : Oms :=
+  { bm := o.bm.markAll sel, nbChannels := o.nbChannels + nb, services := o.services ++ [id] }
+
+theorem applyOms_spec (o o' : Oms) (sel : List (Int × Int)) (id : String) (nb : Int) (hwf : o.bm.WF)
+    (h : applyOms o sel id nb = .ok o') :
+    o' = o.served sel id nb ∧ ∀ nm ∈ sel, 0 < nm.2 ∧ o.bm.idxMin ≤ nm.1 ∧ nm.1 ≤ o.bm.idxMax ∧
+      o.bm.nMin < nm.1 - nm.2 ∧ nm.1 + nm.2 - 1 ≤ o.bm.nMax := by
+  simp only [applyOms, bind, Except.bind] at h
+  cases hf : sel.foldlM (fun b nm => assignSpectrum b nm.1 nm.2) o.bm with
+  | error e => rw [hf] at h; cases h
+  | ok b =>
+    rw [hf] at h
+    obtain ⟨i1, i2⟩ := foldlM_assign sel _ _ hwf hf
+    refine ⟨?_, i2⟩
+    have : o' = { bm := b, nbChannels := o.nbChannels + nb, services := o.services ++ [id] } := by
+      simpa [pure, Except.pure] using h.symm
+    rw [this, i1]; rfl
+
+theorem applyPath_spec (sel : List (Int × Int)) (id : String) (nb : Int) :
+    ∀ (path : List Nat) (s s' : List Oms), path.Nodup → (∀ o ∈ s, o.bm.WF) → applyPath sel id nb path s = .ok s' →
+      s'.length = s.length ∧
+      (∀ k, k ∉ path → s'[k]? = s[k]?) ∧
+      (∀ k ∈ path, ∃ o, s[k]? = some o ∧ s'[k]? = some (o.served sel id nb) ∧
+        ∀ nm ∈ sel, 0 < nm.2 ∧ o.bm.idxMin ≤ nm.1 ∧ nm.1 ≤ o.bm.idxMax ∧ o.bm.nMin < nm.1 - nm.2 ∧
+          nm.1 + nm.2 - 1 ≤ o.bm.nMax) := by
+  intro path
+  induction path with
+  | nil =>
+    intro s s' _ _ h
+    have : s' = s := by simpa [applyPath, pure, Except.pure] using h.symm
+    subst this
+    simp
+  | cons p path ih =>
+    intro s s' hnd hwf h
+    unfold applyPath at h
+    cases hp : s[p]? with
+    | none => rw [hp] at h; cases h
+    | some x =>
+      rw [hp] at h
+      simp only [bind, Except.bind] at h
+      cases ha : applyOms x sel id nb with
+      | error e => rw [ha] at h; cases h
+      | ok x' =>
+        rw [ha] at h
+        simp only at h
+        have hxm : x ∈ s := List.mem_of_getElem? hp
+        obtain ⟨hx', hb⟩ := applyOms_spec x x' sel id nb (hwf x hxm) ha
+        obtain ⟨hpn, hnd'⟩ := List.nodup_cons.1 hnd
+        have hwf1 : ∀ o ∈ s.set p x', o.bm.WF := by
+          intro o ho
+          rcases List.mem_or_eq_of_mem_set ho with ho | rfl
+          · exact hwf o ho
+          · rw [hx']; exact Bitmap.WF_markAll _ _ (hwf x hxm)
+        obtain ⟨i1, i2, i3⟩ := ih (s.set p x') s' hnd' hwf1 h
+        have hplt : p < s.length := by
+          rcases Nat.lt_or_ge p s.length with hh | hh
+          · exact hh
+          · rw [List.getElem?_eq_none hh] at hp; cases hp
+        refine ⟨by rw [i1, List.length_set], ?_, ?_⟩
+        · intro k hk
+          have hkp : p ≠ k := fun e => hk (e ▸ List.mem_cons_self)
+          rw [i2 k (fun hh => hk (List.mem_cons_of_mem _ hh)), List.getElem?_set_ne hkp]
+        · intro k hk
+          rcases List.mem_cons.1 hk with rfl | hk
+          · refine ⟨x, hp, ?_, hb⟩
+            rw [i2 k hpn, List.getElem?_set_self hplt, hx']
+          · have hkp : p ≠ k := fun e => hpn (e ▸ hk)
+            obtain ⟨o, ho, ho', hbb⟩ := i3 k hk
+            rw [List.getElem?_set_ne hkp] at ho
+            exact ⟨o, ho, ho', hbb⟩
 end Gnpy.Slots
